@@ -11,6 +11,8 @@ mod c04;
 mod c06;
 mod c08;
 mod c10;
+mod groups;
+mod c11;
 mod c14;
 mod c19;
 mod c20;
@@ -35,6 +37,7 @@ fn main() {
         ("C08", "drive") => c08::drive(rest),
         ("C10", "replay") => c10::replay(rest),
         ("C10", "drive") => c10::drive(rest),
+        ("C11", "drive") => c11::drive(rest),
         ("C14", "replay") => c14::replay(rest),
         ("C14", "drive") => c14::drive(rest),
         ("C19", "replay") => c19::replay(rest),
